@@ -237,3 +237,88 @@ package dnsmsg
 //@   modifies pooled, dns.CNAME.Target
 //@   ensures rr != nil && (fresh(rr) || old(pooled[rr])) && !pooled[rr] && rr.Target == target
 //@   ensures forall o *dns.CNAME :: allocated(o) && !fresh(o) && !old(pooled[o]) ==> o.Target == old(o.Target)
+//@   ensures nothing-else-changes-hands: forall x int :: x != rr ==> pooled[x] == old(pooled[x])
+
+// The remaining record constructors: an object of the caller's own (new or
+// taken out of a pool), set from the arguments.
+//@ func appendIfNotNil
+//@   modifies heap
+//@   ensures len(res) == len(original) && (original == nil ==> res == nil)
+//@ func newANetIP
+//@   modifies heap, pooled
+//@   preserves dns.Msg.*, Cloner.*, optCloner.*, allelems(dns.RR)
+//@   ensures rr != nil && (fresh(rr) || old(pooled[rr])) && !pooled[rr] && (forall x int :: x != rr ==> pooled[x] == old(pooled[x]))
+//@ func newAAAANetIP
+//@   modifies heap, pooled
+//@   preserves dns.Msg.*, Cloner.*, optCloner.*, allelems(dns.RR)
+//@   ensures rr != nil && (fresh(rr) || old(pooled[rr])) && !pooled[rr] && (forall x int :: x != rr ==> pooled[x] == old(pooled[x]))
+//@ func newMX
+//@   modifies heap, pooled
+//@   preserves dns.Msg.*, Cloner.*, optCloner.*, allelems(dns.RR)
+//@   ensures rr != nil && (fresh(rr) || old(pooled[rr])) && !pooled[rr] && (forall x int :: x != rr ==> pooled[x] == old(pooled[x]))
+//@ func newPTR
+//@   modifies heap, pooled
+//@   preserves dns.Msg.*, Cloner.*, optCloner.*, allelems(dns.RR)
+//@   ensures rr != nil && (fresh(rr) || old(pooled[rr])) && !pooled[rr] && (forall x int :: x != rr ==> pooled[x] == old(pooled[x]))
+//@ func newSRV
+//@   modifies heap, pooled
+//@   preserves dns.Msg.*, Cloner.*, optCloner.*, allelems(dns.RR)
+//@   ensures rr != nil && (fresh(rr) || old(pooled[rr])) && !pooled[rr] && (forall x int :: x != rr ==> pooled[x] == old(pooled[x]))
+//@ func newTXT
+//@   modifies heap, pooled
+//@   preserves dns.Msg.*, Cloner.*, optCloner.*, allelems(dns.RR)
+//@   ensures rr != nil && (fresh(rr) || old(pooled[rr])) && !pooled[rr] && (forall x int :: x != rr ==> pooled[x] == old(pooled[x]))
+//@ func (*httpsCloner).clone
+//@   modifies heap, pooled
+//@   preserves dns.Msg.*, Cloner.*, optCloner.*, allelems(dns.RR)
+//@   ensures clone != nil && clone != rr && !pooled[clone] && (fresh(clone) || old(pooled[clone])) && (forall x int :: !old(pooled[x]) ==> !pooled[x])
+//@ func (*httpsCloner).put
+//@   modifies pooled
+//@ interface ClonerStat method OnClone
+//@   modifies nothing
+
+// A clone of an answer record is an object of its own (never the source), not
+// in any pool; nothing that was live becomes pooled.
+//@ func (*Cloner).cloneAnswerRR
+//@   property C07
+//@   requires CL(c) && PW() && ref(orig) != 0 && !pooled[ref(orig)]
+//@   modifies heap, pooled
+//@   preserves dns.Msg.*, Cloner.*, optCloner.*, allelems(dns.RR)
+//@   ensures its-own-object: ref(clone) != 0 && ref(clone) != ref(orig) && !pooled[ref(clone)] && (fresh(ref(clone)) || old(pooled[ref(clone)]))
+//@   ensures nothing-live-gets-pooled: forall x int :: !old(pooled[x]) ==> !pooled[x]
+//@   ensures PW()
+
+// The records of a message in use: present and not in any pool.
+//@ pred liveRRs(s []dns.RR) = forall i int :: 0 <= i && i < len(s) ==> ref(s[i]) != 0 && !pooled[ref(s[i])]
+
+// Every record appended to the clone's section is the clone's own: taken out
+// of a pool or new, hence shared with no message in use - in particular not
+// with the source.
+//@ func (*Cloner).appendAnswer
+//@   property C07
+//@   let c0 = clones
+//@   requires CL(c) && PW() && liveRRs(original) && arr(clones) != arr(original)
+//@   modifies heap, pooled
+//@   preserves dns.Msg.*, Cloner.*, optCloner.*
+//@   ensures original == nil ==> res == nil
+//@   ensures same-number-of-records: original != nil ==> len(res) == len(c0) + len(original)
+//@   ensures each-record-is-the-clones-own: forall i int :: len(c0) <= i && i < len(res) ==>
+//@             ref(res[i]) != 0 && !pooled[ref(res[i])] && (fresh(ref(res[i])) || old(pooled)[ref(res[i])])
+//@   ensures nothing-live-gets-pooled: forall x int :: !old(pooled[x]) ==> !pooled[x]
+//@   ensures PW()
+//@   loop 1 invariant -1 <= #i && #i < len(original) && arr(clones) != arr(original) && len(clones) == len(c0) + #i + 1 && PW()
+//@   loop 1 invariant liveRRs(original)
+//@   loop 1 invariant forall x int :: !old(pooled[x]) ==> !pooled[x]
+//@   loop 1 invariant forall i int :: len(c0) <= i && i < len(clones) ==>
+//@             ref(clones[i]) != 0 && !pooled[ref(clones[i])] && (fresh(ref(clones[i])) || old(pooled)[ref(clones[i])])
+
+// Only an array that is all of the memory the address can reach goes into the
+// address pool: a 16-byte window into a longer buffer (the hints of a message
+// unpacked from the wire are such windows) would overlap with its neighbours'
+// windows, and two later clones would share memory.
+//@ func (*httpsCloner).putIPs
+//@   property C07
+//@   requires c != nil && c.ip != nil
+//@   modifies pooled
+//@   atcall Put assert a-pooled-array-is-the-whole-buffer-of-its-address: cap(ip) == 16
+//@   loop 1 invariant -1 <= #i && #i < len(ips)
